@@ -306,7 +306,12 @@ func (t *btr) assign(s *ast.AssignStmt, ind int) []string {
 			items = append(items, pad(ind)+"upd (fun s => "+lv.set(v, "s")+")")
 			return items
 		}
-		rv := t.expr(rhs)
+		var rv val
+		if cl, ok := unparen(rhs).(*ast.CompositeLit); ok {
+			rv = t.zeroArrayLit(cl, op)
+		} else {
+			rv = t.expr(rhs)
+		}
 		guards := addGuards(addGuards(nil, lv.guards...), rv.guards...)
 		var v string
 		if op != token.ILLEGAL {
@@ -341,11 +346,19 @@ func (t *btr) assign(s *ast.AssignStmt, ind int) []string {
 		guards = addGuards(guards, rv.guards...)
 		lines = append(lines, fmt.Sprintf("%s  let t%d := %s in", pad(ind), i, t.rvalue(s, lvs[i], rv)))
 	}
-	phase1 := len(guards)
-	_ = phase1
+	// A later store whose own check (index range, nil pointer) is not already implied by the checks made
+	// before the first store panics AFTER the earlier stores took effect: guard_part (GoT.v).  All the
+	// checks are terms over the state before the statement and do not read memory (slice headers and
+	// indices only), so they can be evaluated up front; only the state carried by the panic differs.
 	allowed := addGuards(append([]string{}, guards...), lvs[0].guards2...)
+	type latePanic struct {
+		at     int
+		guards []string
+	}
+	var late []latePanic
 	for i, lv := range lvs {
 		if i > 0 {
+			var missing []string
 			for _, g := range lv.guards2 {
 				found := false
 				for _, a := range allowed {
@@ -354,20 +367,50 @@ func (t *btr) assign(s *ast.AssignStmt, ind int) []string {
 					}
 				}
 				if !found {
-					t.abort(s, "tuple assignment whose store #%d can panic after an earlier store took effect", i+1)
+					missing = addGuards(missing, g)
 				}
+			}
+			if len(missing) > 0 {
+				late = append(late, latePanic{i, missing})
+				allowed = addGuards(allowed, missing...)
 			}
 		}
 	}
 	guards = addGuards(guards, lvs[0].guards2...)
 	st := "s"
+	var stores []string
 	for i, lv := range lvs {
 		nst := fmt.Sprintf("s%d", i+1)
-		lines = append(lines, fmt.Sprintf("%s  let %s := %s in", pad(ind), nst, lv.set(fmt.Sprintf("t%d", i), st)))
+		stores = append(stores, fmt.Sprintf("%s  let %s := %s in", pad(ind), nst, lv.set(fmt.Sprintf("t%d", i), st)))
 		st = nst
 	}
-	code := "upd (fun s =>\n" + strings.Join(lines, "\n") + "\n" + pad(ind) + "  " + st + ")"
-	return []string{cm + guarded(ind, guards, code)}
+	if len(late) == 0 {
+		code := "upd (fun s =>\n" + strings.Join(append(append([]string{}, lines...), stores...), "\n") + "\n" + pad(ind) + "  " + st + ")"
+		return []string{cm + guarded(ind, guards, code)}
+	}
+	var b strings.Builder
+	for _, lp := range late {
+		part := "s"
+		if lp.at > 0 {
+			part = fmt.Sprintf("s%d", lp.at)
+		}
+		b.WriteString(pad(ind) + "guard_part (fun s => " + conj(lp.guards) + ") (fun s =>\n" +
+			strings.Join(append(append([]string{}, lines...), stores[:lp.at]...), "\n") + "\n" + pad(ind) + "  " + part + ") (\n")
+	}
+	b.WriteString(pad(ind) + "upd (fun s =>\n" + strings.Join(append(append([]string{}, lines...), stores...), "\n") + "\n" + pad(ind) + "  " + st + ")")
+	b.WriteString(strings.Repeat(")", len(late)))
+	return []string{cm + guarded(ind, guards, strings.TrimPrefix(b.String(), pad(ind)))}
+}
+
+// zeroArrayLit: the composite literal [N]T{} (no elements, integer T) as the right-hand side of a plain
+// assignment: an array value, all zero.  Every other composite literal aborts.
+func (t *btr) zeroArrayLit(cl *ast.CompositeLit, op token.Token) val {
+	ty := t.info.Types[cl].Type
+	k, _, arrN, ok := classify(ty)
+	if !ok || k != kArray || len(cl.Elts) != 0 || op != token.ILLEGAL {
+		t.abort(cl, "composite literal other than [N]T{} assigned to an array")
+	}
+	return val{kind: kArray, term: fmt.Sprintf("(zeros %d)", arrN), arrN: arrN, typ: ty, ptrN: -1}
 }
 
 func (t *btr) zero(n ast.Node, lv lval) string {
@@ -402,10 +445,22 @@ func (t *btr) block(list []ast.Stmt, ind int, top bool) string {
 			items = append(items, fmt.Sprintf("%s%s\n%srecover_with (fun s => %s) (\n%s)", pad(ind), t.where(d), pad(ind), h, rest))
 			return joinItems(ind, items)
 		}
+		if ls, ok := s.(*ast.LabeledStmt); ok && top && t.cur.labels[ls.Label.Name] == ls {
+			// Label on a statement at the top level of the function body: the code from here to the end of the
+			// function becomes a definition of its own, entered by falling through (here) or by  goto  (jump).
+			tail := t.block(append([]ast.Stmt{ls.Stmt}, list[i+1:]...), 1, true)
+			name := t.labelName(ls.Label.Name)
+			t.cur.aux = append(t.cur.aux, fmt.Sprintf("(* %s: label %s of func %s: the statements from the label to the end of the function *)\nDefinition %s (fuel : nat) : stmt :=\n%s.\n",
+				t.pos(ls), ls.Label.Name, t.cur.key, name, tail))
+			items = append(items, fmt.Sprintf("%s%s\n%s%s fuel", pad(ind), t.where(ls), pad(ind), name))
+			return joinItems(ind, items)
+		}
 		items = append(items, t.stmt(s, ind)...)
 	}
 	return joinItems(ind, items)
 }
+
+func (t *btr) labelName(l string) string { return t.cur.cname + "_at_" + sanitize(l) }
 
 // recoverIdiom matches  defer func() { if recover() != nil { ret = C } }()  exactly.
 func (t *btr) recoverIdiom(d *ast.DeferStmt) string {
@@ -573,6 +628,10 @@ func (t *btr) stmt(s ast.Stmt, ind int) []string {
 				}
 				continue
 			}
+			if r.errCode {
+				sets = append(sets, "set_"+r.field+" "+t.errorCode(e))
+				continue
+			}
 			core, _ := t.stripConv(e)
 			if c, ok := core.(*ast.CallExpr); ok && t.hoistable(c) {
 				t.abort(e, "call with side effects among several return values")
@@ -584,7 +643,15 @@ func (t *btr) stmt(s ast.Stmt, ind int) []string {
 		return []string{cm + guarded(ind, guards, "ret_with (fun s => "+nest(sets, "s")+")")}
 	case *ast.BranchStmt:
 		if s.Tok == token.GOTO {
-			t.abort(s, "goto")
+			// supported: a forward goto to a label on a statement at the top level of the function body
+			ls := t.cur.labels[s.Label.Name]
+			if ls == nil {
+				t.abort(s, "goto to a label that is not on a statement at the top level of the function body")
+			}
+			if s.Pos() >= ls.Pos() {
+				t.abort(s, "backward goto")
+			}
+			return []string{cm + pad(ind) + "jump (" + t.labelName(s.Label.Name) + " fuel)"}
 		}
 		if s.Label != nil {
 			t.abort(s, "labelled %s", s.Tok)
@@ -770,9 +837,40 @@ func (t *btr) switchStmt(s *ast.SwitchStmt, ind int) []string {
 	return items
 }
 
+// errorCode: the value of an error result that is materialised as a code.
+func (t *btr) errorCode(e ast.Expr) string {
+	if t.info.Types[e].IsNil() {
+		return "0"
+	}
+	var id *ast.Ident
+	switch x := unparen(e).(type) {
+	case *ast.SelectorExpr:
+		id = x.Sel
+	case *ast.Ident:
+		id = x
+	}
+	if id != nil {
+		if obj := t.info.Uses[id]; obj != nil && obj.Pkg() != nil && obj.Parent() == obj.Pkg().Scope() &&
+			strings.HasSuffix(obj.Pkg().Path(), "/internal/lz4errors") && obj.Name() == "ErrInvalidSourceShortBuffer" {
+			return "1"
+		}
+	}
+	t.abort(e, "error value other than nil and lz4errors.ErrInvalidSourceShortBuffer")
+	return ""
+}
+
 // function translates one non-pure function.
 func (t *btr) function(f *bfunc) string {
+	f.labels = map[string]*ast.LabeledStmt{}
+	for _, st := range f.fd.Body.List {
+		if ls, ok := st.(*ast.LabeledStmt); ok {
+			f.labels[ls.Label.Name] = ls
+		}
+	}
 	body := t.block(f.fd.Body.List, 1, true)
+	if f.hasDefer && len(f.labels) > 0 {
+		t.abort(f.fd, "labels in a function with a deferred recover")
+	}
 	var b strings.Builder
 	p := fset.Position(f.fd.Pos())
 	fmt.Fprintf(&b, "(* %s:%d  func %s\n", p.Filename, p.Line, f.key)
@@ -789,6 +887,8 @@ func (t *btr) function(f *bfunc) string {
 	for i, v := range f.results {
 		if v.kind == kErr {
 			fmt.Fprintf(&b, "     result #%d : error, always nil, not materialised\n", i)
+		} else if v.errCode {
+			fmt.Fprintf(&b, "     result #%d : error as a code (0 = nil, 1 = lz4errors.ErrInvalidSourceShortBuffer) -> field %s\n", i, v.field)
 		} else {
 			fmt.Fprintf(&b, "     result #%d : %s -> field %s\n", i, v.obj.Type(), v.field)
 		}
